@@ -199,7 +199,35 @@ def gcPrefactor (V lam : α) (N : Nat) (δ : Int) : α :=
 /-- `exponential = (δ*μ - dE) / (T*kB)` -/
 def gcExponential (dE mu kT : α) (δ : Int) : α := (Num.ofInt δ * mu - dE) / kT
 
-/-- after the fix: `log_prefactor = math.log(prefactor) if prefactor > 0 else -inf;
+/-! ### the prefactor accumulated as its logarithm (the code after the second repair: `V**δ` and `Λ**(-3δ)` leave the
+double range — Python's `**` raises `OverflowError`, or the product underflows to 0 — long before the ratio does) -/
+
+/-- `for i in range(lo, lo + n): log_prefactor -= math.log(i)` -/
+def logDivLoop (acc : α) (lo : Int) : Nat → α
+  | 0 => acc
+  | n + 1 => logDivLoop (acc - Num.log (Num.ofInt lo)) (lo + 1) n
+
+/-- `for i in range(lo, lo + n): log_prefactor = log_prefactor + math.log(i) if i > 0 else -math.inf`;
+    `none` stands for `-inf` (which stays `-inf` under every later `+ log i` and `- 3δ·log Λ`) -/
+def logMulLoop (acc : Option α) (lo : Int) : Nat → Option α
+  | 0 => acc
+  | n + 1 => logMulLoop (if 0 < lo then acc.map (· + Num.log (Num.ofInt lo)) else none) (lo + 1) n
+
+/-- `0.5 * (math.log(_hplanck**2 / (2*np.pi*mass*kB/_Nav*1e-3*_e)) - math.log(T)) + math.log(1e10)` -/
+def logDeBroglie (k : Consts α) (mass T : α) : α :=
+  Num.half * (Num.log (Num.npow k.hplanck 2 / (Num.two * Num.pi * mass * k.kB / k.nav * milli * k.e)) - Num.log T)
+    + Num.log e10
+
+/-- `log_prefactor` of `GrandCanonicalCriteria.evaluate`: `δ·log V`, the factorial loop, `- 3·δ·log Λ` -/
+def gcLogPrefactor (V logLam : α) (N : Nat) (δ : Int) : Option α :=
+  let base : α := Num.ofInt δ * Num.log V
+  let withFact : Option α :=
+    if 0 < δ then some (logDivLoop base ((N : Int) + 1) δ.toNat)
+    else if δ < 0 then logMulLoop (some base) ((N : Int) + δ + 1) (-δ).toNat
+    else some base
+  withFact.map (· - Num.ofInt (3 * δ) * logLam)
+
+/-- the first repair (kept as the product-form reference): `log_prefactor = math.log(prefactor) if prefactor > 0 else -inf;
     _metropolis(rng, exponential + log_prefactor)`.  With `-inf` the Python expression is
     `u < math.exp(-inf) = 0.0`, false for every `u ≥ 0`; the model returns `false` directly. -/
 def gcAcceptFixed [DecidableRel (α := α) (· < ·)] [DecidableRel (α := α) (· ≤ ·)] (u pref expo : α) : Bool :=
@@ -223,6 +251,14 @@ def gcAcceptRaw [DecidableRel (α := α) (· < ·)] (u pref expo : α) : Except 
   match pyExp expo with
   | .error err => .error err
   | .ok x => .ok (decide (u < x * pref))
+
+/-- the largest finite double, `sys.float_info.max` = (2 − 2⁻⁵²)·2¹⁰²³ -/
+def floatMax : α := (Num.two - Num.one / Num.npow Num.two 52) * Num.npow Num.two 1023
+
+/-- Python's `x ** k` for a float `x` and an int `k`: raises `OverflowError` when the result leaves the double range
+    (the product-form prefactor used it for `V**δ` and `Λ**(-3δ)`) -/
+def pyIPow [DecidableRel (α := α) (· < ·)] (x : α) (k : Int) : Except PyErr α :=
+  if floatMax < ipow x k then .error .overflow else .ok (ipow x k)
 
 /-! ## contexts, simulation-object setters, `evaluate` -/
 
@@ -296,9 +332,34 @@ def isobaricEvaluate (k : Consts α) (c : Ctx α) (t : Trial α) (u : α) : Bool
 /-- `IsotensionCriteria.evaluate(context)` -/
 def isotensionEvaluate (k : Consts α) (c : Ctx α) (t : Trial α) (u : α) : Bool :=
   acceptFixed u (isotensionExp k c t)
-/-- `GrandCanonicalCriteria.evaluate(context)` -/
-def gcEvaluate (k : Consts α) (c : Ctx α) (t : Trial α) (u : α) : Bool :=
+/-- `GrandCanonicalCriteria.evaluate(context)` with the prefactor as the product `V**δ * factorial_term * Λ**(-3δ)`
+    (the code between the two repairs; `**` idealised as total — see `pyIPow` for what Python does) -/
+def gcEvaluateProd (k : Consts α) (c : Ctx α) (t : Trial α) (u : α) : Bool :=
   gcAcceptFixed u (gcPref k c) (gcExpo k c t)
+
+/-- `log_prefactor` for a context -/
+def gcLogPref (k : Consts α) (c : Ctx α) : Option α :=
+  gcLogPrefactor c.accessibleVolume (logDeBroglie k c.exchangeMass c.temperature) c.nExchange c.particleDelta
+
+/-- `GrandCanonicalCriteria.evaluate(context)`: `_metropolis(rng, exponential + log_prefactor)`; with `log_prefactor = -inf`
+    the Python expression is `exponent >= 0 or u < math.exp(exponent)` at `-inf` (or `nan`): false for every `u ≥ 0` -/
+def gcEvaluate (k : Consts α) (c : Ctx α) (t : Trial α) (u : α) : Bool :=
+  match gcLogPref k c with
+  | none => false
+  | some lp => acceptFixed u (gcExpo k c t + lp)
+
+/-- the same with `math.log` / `math.exp` as the partial functions Python has (`gc_evaluate_total`: never fails for
+    positive volume, temperature, mass and constants) -/
+def gcEvaluateE (k : Consts α) (c : Ctx α) (t : Trial α) (u : α) : Except PyErr Bool :=
+  match pyLog c.accessibleVolume, pyLog c.temperature,
+        pyLog (Num.npow k.hplanck 2 / (Num.two * Num.pi * c.exchangeMass * k.kB / k.nav * milli * k.e)) with
+  | .ok _, .ok _, .ok _ =>
+    match gcLogPref k c with
+    | none => .ok false
+    | some lp => acceptFixedE u (gcExpo k c t + lp)
+  | .error e, _, _ => .error e
+  | _, .error e, _ => .error e
+  | _, _, .error e => .error e
 
 end
 
